@@ -57,6 +57,7 @@ def run(chk: Check) -> None:
     run_registry_lookups_guarded(chk, ix)
     run_instance_asserts_after_subtype(chk, ix)
     run_format_replacement_lookups(chk, ix)
+    run_progress_reads_what_was_written(chk, ix)
 
     r1 = chk.rule("R20.1", "every loop that re-queues deferred work has a per-iteration counter compared with a constant bound that exits the loop; type-checker deferral is limited by pass_num < last_pass", floor=7)
     n_loops = 0
@@ -752,3 +753,34 @@ def run_format_replacement_lookups(chk: Check, ix) -> None:
                     r.violation(key, f.loc(call), "the type map is asked for `repl` whatever it is: for a replacement that comes from `*args` / `**kwargs` it is a TempNode and lookup_type raises KeyError")
     if n < 2:
         raise AnalysisError(f"checkstrformat: {n} lookup_type(repl) sites found (expected 2)")
+
+
+def run_progress_reads_what_was_written(chk: Check, ix) -> None:
+    """R20.14: `did this iteration change anything` compares with a field the previous iteration actually filled."""
+    r = chk.rule("R20.14", "semanal_newtype.build_newtype_typeinfo forces another semantic-analysis iteration (process_placeholder(force_progress=updated)) when the NewType's base type differs from the one recorded by the previous iteration. It records the type through make_argument (`Argument(Var(name), type, ...)`: the type lands in Argument.type_annotation, the Var has none), so `updated` must be computed from an attribute path that this constructor call fills; a path that is always None makes every iteration look like progress, and an unresolvable cyclic definition runs into the iteration limit (INTERNAL ERROR) instead of `Cannot resolve name`", floor=1)
+    f = ix.func("mypy.semanal_newtype.NewTypeAnalyzer.build_newtype_typeinfo")
+    ma = ix.func("mypy.semanal_newtype.NewTypeAnalyzer.make_argument")
+    upd = [a for a in ast.walk(f.node) if isinstance(a, ast.Assign) and norm(a.targets[0]) == "updated" and isinstance(a.value, ast.Compare)]
+    if not upd:
+        raise AnalysisError("build_newtype_typeinfo: `updated = <comparison>` not found")
+    # which Argument fields does make_argument fill with the type?
+    ret = [r_ for r_ in ast.walk(ma.node) if isinstance(r_, ast.Return) and isinstance(r_.value, ast.Call) and call_name(r_.value) == "Argument"]
+    if not ret:
+        raise AnalysisError("make_argument no longer returns Argument(...)")
+    call = ret[0].value
+    arg_params = [a.arg for a in ix.func("mypy.nodes.Argument.__init__").params][1:]
+    filled = set()
+    for i, a in enumerate(call.args):
+        if isinstance(a, ast.Name) and a.id == "type" and i < len(arg_params):
+            filled.add(arg_params[i])
+    var_typed = any(isinstance(a, ast.Call) and call_name(a) == "Var" and len(a.args) >= 2 for a in call.args)
+    for a in upd:
+        paths = [norm(x) for x in ast.walk(a.value) if isinstance(x, ast.Attribute) and "arguments" in norm(x)]
+        longest = max(paths, key=len) if paths else ""
+        key = "build_newtype_typeinfo: `updated` compares with a field the previous iteration filled"
+        tail = longest.split("].", 1)[1] if "]." in longest else longest
+        ok = tail in filled or (tail == "variable.type" and var_typed)
+        if ok:
+            r.ok(key, f.loc(a), f"reads .{tail}; make_argument fills {sorted(filled)}")
+        else:
+            r.violation(key, f.loc(a), f"`{norm(a.value)[:90]}` reads `.{tail}`, but make_argument builds `{norm(call)}`: that attribute is never set (always None), so `updated` is always True and progress is forced on every iteration")
